@@ -155,11 +155,14 @@ def gammas(run):
                     out.append(({"strategy": "page_by", "L": 1, "nrow": nrow, "header": hm, "new_page": np_, "pageby_row": pr,
                                  "pageby_header": pbh, "heights": [1, 2] if not quick else [1]}, 6 if not quick else 5, True))
     out.append(({"strategy": "page_by", "L": 1, "nrow": 4, "header": "explicit", "new_page": True, "pageby_row": "column", "heights": [1]}, 5, False))
-    for L, nrows, depth in ((2, (4, 6) if quick else (4, 5, 6, 8, 12), 4 if quick else 5), (3, (6,) if quick else (5, 6, 8), 4)):
+    for L, nrows, depth in ((2, (4, 6, 10) if quick else (4, 5, 6, 8, 12, 16), 4 if quick else 5), (3, (6, 12) if quick else (5, 6, 8, 14), 4)):
         for nrow in nrows:
             for hm in (("explicit",) if quick else ("none", "explicit")):
                 for rep in (True, False):
                     out.append(({"strategy": "page_by", "L": L, "nrow": nrow, "header": hm, "inner_repeat": rep, "heights": [1]}, depth, True))
+                if nrow >= 6:  # page_by list order differs from the DataFrame's column order
+                    out.append(({"strategy": "page_by", "L": L, "nrow": nrow, "header": hm, "inner_repeat": True, "heights": [1], "group_cols_reversed": True},
+                                depth, False))
     for nrow in ((4, 6) if quick else (3, 4, 5, 6, 8)):
         out.append(({"strategy": "page_by", "L": 2, "nrow": nrow, "header": "explicit", "new_page": True, "pageby_row": "first_row", "heights": [1]},
                     4 if quick else 5, False))
